@@ -29,12 +29,22 @@ func ReadFile(name string) ([]byte, error) {
 	return os.ReadFile(name)
 }
 
-// Stdin returns what the library should read as standard input.
-func Stdin() io.Reader {
-	if StdinReader != nil {
-		return StdinReader
+// Stdin returns what the library should read as standard input: os.Stdin, or
+// (under a simulation) a real file holding what the simulator feeds, so that
+// code treating it as the *os.File it is (Stat, Fd, Name) compiles and works.
+func Stdin() *os.File {
+	if StdinReader == nil {
+		return os.Stdin
 	}
-	return os.Stdin
+	data, _ := io.ReadAll(StdinReader)
+	tf, err := os.CreateTemp("", "zzsim-stdin-*")
+	if err != nil {
+		return os.Stdin
+	}
+	os.Remove(tf.Name())
+	tf.Write(data)
+	tf.Seek(0, io.SeekStart)
+	return tf
 }
 
 // Open is os.Open through the same seam as ReadFile (the open is the read
